@@ -101,7 +101,7 @@ def prop_modules(prop):
     """the property's theorem files: Props/<prop>.lean and, where a theorem needs lemmas that themselves build on the
     first file, Props/<prop>b.lean"""
     mods = [prop]
-    for sfx in ("b", "c", "d"):
+    for sfx in ("b", "c", "d", "e", "f"):
         if os.path.exists(os.path.join(LEAN, "O2oModel", "Props", prop + sfx + ".lean")):
             mods.append(prop + sfx)
     return mods
